@@ -179,6 +179,7 @@ typedef struct ABTI_unit_to_thread_entry ABTI_unit_to_thread_entry;
 typedef enum ABTI_stack_guard ABTI_stack_guard;
 
 /* Architecture-Dependent Definitions */
+#include "abti_verif.h"
 #include "abtd.h"
 
 /* Basic data structure and memory pool. */
